@@ -14,14 +14,14 @@ for k, b in ((3, 2), (3, 3)):
         name="C16.a (known finding C16-2) injected-GER index: %d L2 blocks, reorg at block %d that orphans a removal of a root injected below it: the root is live again" % (k, b),
         harness=L + "ZZVerif_C16_GERIndex", params={"K": k, "B": b, "UNDONE": 1}, tiers=("quick", "thorough"), reach=[], time_limit_s=3000, known_finding="C16-2",
         bounds="as C16.a, restricted to histories in which a removal in an orphaned block had deleted a root of a kept block"))
-for nb, np_, start, far, tiers in ((3, 2, 0, 0, ("quick", "thorough")), (4, 3, 5, 0, ("quick", "thorough")), (4, 2, 0, 1, ("quick", "thorough")),
+for nb, np_, start, far, tiers in ((3, 2, 0, 0, ("quick", "thorough")), (4, 3, 5, 0, ("quick", "thorough")), (4, 2, 0, 1, ("quick", "thorough")), (3, 2, 1, 2, ("quick", "thorough")),
                                   (4, 4, 0, 0, ("thorough",)), (5, 2, 3, 0, ("thorough",)), (6, 2, 7, 1, ("thorough",))):
     OBLIGATIONS.append(dict(
         name="C16.b PP download loop: %d L2 blocks that may hold an event after block %d%s, %d polls seeing arbitrary tips: every block with a GER event up to the last tip is handed over once, in order"
-             % (nb, start, " (half of them about 1000 blocks further on)" if far else "", np_),
-        harness=L + "ZZVerif_C16_PPDownload", params={"NB": nb, "NP": np_, "START": start, "FAR": far}, tiers=tiers, reach=["events", "end"], time_limit_s=3000, max_paths=600000,
+             % (nb, start, {0: "", 1: " (half of them about 1000 blocks further on)", 2: " (the L1 info syncer lags: first lookup of each root fails)"}[far], np_),
+        harness=L + "ZZVerif_C16_PPDownload", params={"NB": nb, "NP": np_, "START": start, "FAR": far % 2, "LAG": far // 2}, tiers=tiers, reach=["events", "end"], time_limit_s=3000, max_paths=600000,
         bounds="%d blocks, event per block in {none, insertion, removal}, all roots; %d polls with every non-decreasing tip sequence (no progress, one block, several blocks)" % (nb, np_)))
 ASSUMPTIONS = ["C16.a obligations other than the known-finding ones assume that no removal in an orphaned block concerns a root injected in a kept block (that region is known finding C16-2)", "at most one GER event per L2 block (the table's primary key; stated in the property)", "SQL model of SQLite"]
-ASSUMPTIONS += ["C16.b: the L2 node is a fake client (tips per poll, logs per range, headers); log decoding by the generated contract binding is replaced by reading the indexed topics; "
+ASSUMPTIONS += ["C16.b: the L2 node is a fake client (tips per poll, logs per range, headers); the generated contract binding is modelled (indexed arguments from the topics; natively the real binding runs); "
                 "the ticker of WaitForNewBlocks ticks whenever looked at (bounded); block hash as uninterpreted function of the header"]
 OUTSIDE = "the FEP downloader (reads contract state, not events); RPC errors inside the PP loop; reorgs between the log query and the header query (C05)"
